@@ -27,7 +27,7 @@ def specs(tier):
             strat = "create_unique" if i % 2 else "error"
             out.append(XSpec("fidelity[%s,%s db,%s]" % (name, store, strat), H, "cond_fidelity", "reach_fidelity", timeout=900,
                              env=dict(env, VB_VLEN=3, VB_FIXW=1, VB_STORE=store, VB_STRATEGY=strat),
-                             bounds=dict(lines=3, skeleton=name, value="one of 9 representative values (reserved, non-ASCII, blank-containing)",
+                             bounds=dict(lines=3, skeleton=name, value="one of 10 representative values (reserved, non-ASCII, blank-containing)",
                                          checklines="0..3", store=store, merge_strategy=strat)))
         out.append(XSpec("fidelity[gff3,';',sort_attribute_values]", H, "cond_fidelity", "reach_fidelity", timeout=900,
                          env=dict(VB_FMT="gff3", VB_VLEN=3, VB_FIXW=1, VB_SORTV=1), bounds=dict(lines=3, sort_attribute_values=True)))
@@ -49,7 +49,7 @@ def run(tier, seed):
         PROP, tier, seed, specs(tier),
         assumptions=ASSUME[1:3] + [
             "the file is 3 lines (gene, mRNA with one extra column, exon with '.' coordinates and two extra columns, no ID) written by the writer model in ONE dialect incl. one file-wide relative key order; every line shows every formatting choice (>= 2 attributes and a two-valued key)",
-            "quick tier: the varied value ranges over 9 representative strings and checklines over 0..3 (the per-character generality of parse/print is C07/C08's); thorough adds an arbitrary character and all 48 skeletons x store x strategy",
+            "quick tier: the varied value ranges over 10 representative strings and checklines over 0..3 (the per-character generality of parse/print is C07/C08's); thorough adds an arbitrary character and all 48 skeletons x store x strategy",
             "reopen = a new FeatureDB over the committed simsql store; real sqlite durability is outside (counterexamples are replayed with real files)",
         ],
         stand_ins=["simsql", "jsonbox", "fakefs", "unquote_model", "nocache_quoter", "bins_stub", "CrossHair patches vlib/xh_patches.py"],
